@@ -108,4 +108,49 @@ theorem sched_builtins_immutable (sched : List Nat) : ∀ (p : Process) (ts : Li
       have := ih (stepThread p t).1 (setNth ts i (stepThread p t).2)
       exact ⟨this.1.trans hstep.1, this.2.trans hstep.2⟩
 
+/-- Progress under ANY interleaving: after every schedule, compilation `i` is exactly
+where the same number of its own steps, run alone, would have taken it — the other
+compilations' steps are invisible to it (no `unique-id()`). -/
+theorem concurrent_thread_progress (p : Process) (ts : List Thread) (sched : List Nat)
+    (hno : ∀ (k : Nat) (t : Thread), ts[k]? = some t → t.noUid)
+    (i : Nat) (t : Thread) (hi : ts[i]? = some t) :
+    (runSched p ts sched).2[i]? = some (soloN p (sched.count i) t) :=
+  runSched_thread p sched p ts (SameBuiltins.refl p) hno i t hi
+
+/-- FULL STATEMENT on the model (concurrent part): for any number of compilations
+running concurrently and ANY statement-level interleaving of their steps over the shared
+process state, every compilation that has been scheduled to its end finishes with
+exactly the result (`ok` output or error) of compiling the same stylesheet alone. -/
+theorem concurrent_independent (p : Process) (progs : List (List Op)) (sched : List Nat)
+    (hu : ∀ ops ∈ progs, ∀ op ∈ ops, op.usesUid = false)
+    (i : Nat) (ops : List Op) (hi : progs[i]? = some ops) (hdone : ops.length ≤ sched.count i) :
+    ∃ t, (runSched p (progs.map fun o => ⟨o, .ok Comp.empty⟩) sched).2[i]? = some t ∧
+      t.todo = [] ∧ threadResult t = (compile p ops).2 := by
+  have hget : (progs.map fun o => (⟨o, .ok Comp.empty⟩ : Thread))[i]? = some ⟨ops, .ok Comp.empty⟩ := by
+    rw [List.getElem?_map, hi]; rfl
+  have hno : ∀ (k : Nat) (t : Thread), (progs.map fun o => (⟨o, .ok Comp.empty⟩ : Thread))[k]? = some t → t.noUid := by
+    intro k t hk
+    rw [List.getElem?_map] at hk
+    cases hp : progs[k]? with
+    | none => rw [hp] at hk; cases hk
+    | some o =>
+      rw [hp] at hk
+      cases hk
+      exact hu o (List.mem_of_getElem? hp)
+  have hprog := concurrent_thread_progress p _ sched hno i _ hget
+  have huo : ∀ op ∈ ops, op.usesUid = false := hu ops (List.mem_of_getElem? hi)
+  obtain ⟨d, hd⟩ : ∃ d, sched.count i = ops.length + d := ⟨sched.count i - ops.length, by omega⟩
+  rw [hd, soloN_add, soloN_all p ops Comp.empty huo, soloN_done] at hprog
+  exact ⟨_, hprog, rfl, threadResult_runOps p ops⟩
+
+/-- Non-vacuity: two compilations, one of them attacking `math.$pi`, interleaved
+statement by statement; the reader still sees the built-in value. -/
+example :
+    ((runSched ⟨[(['u'], ⟨some ['u'], [(['x'], .num 3)], []⟩)], [], 0, []⟩
+        [⟨[.use ['u'] ['m'] [] none, .assign (some ['m']) ['x'] (.num 7) false false], .ok Comp.empty⟩,
+         ⟨[.use ['u'] ['m'] [] none, .emitVar (some ['m']) ['x']], .ok Comp.empty⟩]
+        [0, 1, 0, 1]).2.map threadResult) =
+      [.error .modifiedBuiltin, .ok [.num 3]] := by
+  rfl
+
 end C05
